@@ -26,7 +26,7 @@ func checkC13(c *Ctx) {
 	c.Rule("C13.R2", "domain separation: the constants that reach the domain-byte parameter of down/up from Absorb, absorbKey, crypt, Squeeze, SqueezeKey and Ratchet are non-zero and pairwise distinct, and every block after the first of one operand carries the byte 0 (def-use of the domain-byte operands)")
 	c.Rule("C13.R3", "both directions absorb the plaintext: in crypt the block handed to down derives from the input on the encrypting arm and from the output (written by the keystream addition before) on the decrypting arm, and both arms perform up, keystream addition, down in that order with the same domain byte (sibling agreement of the two arms)")
 	c.Decides("that empty operands still advance the state, that the operations are domain-separated, that encrypting and decrypting peers absorb the same bytes, that the counter is absorbed in one-byte blocks")
-	c.NotDecided("equality of the outputs with the Cyclist specification (the permutation, the lane packing, the rates, the padding byte positions); panics in the wrong mode")
+	c.NotDecided("equality of the outputs with the Cyclist specification (the permutation, the lane packing, the rates, the padding byte positions, how many blocks an operand is split into — seeded change C13-5, an extra empty block at exact multiples of the rate, is not reported); panics in the wrong mode")
 
 	down := P.Func("cyclist", "(*Cyclist).down")
 	up := P.Func("cyclist", "(*Cyclist).up")
